@@ -127,6 +127,18 @@ func runC10(c *vk.Ctx) {
 			return
 		}
 		balID := newPool("balancer", []string{"aaa", "bbb", third})
+		if i%2 == 1 {
+			// a pool creation that fails as a whole after the pool-created hooks have run (the creator cannot pay the
+			// initial liquidity); the next pool is handed the same id and has other denoms
+			huge := sdkmath.NewIntWithDecimal(1, 45)
+			fm := balancer.NewMsgCreateBalancerPool(trader.Addr, balancer.NewPoolParams(osmomath.MustNewDecFromStr("0.003"), osmomath.ZeroDec(), nil),
+				[]balancer.PoolAsset{{Weight: sdkmath.NewInt(1), Token: sdk.NewCoin("bbb", huge)}, {Weight: sdkmath.NewInt(1), Token: sdk.NewCoin("ccc", huge)}}, "")
+			if res := ch.Exec(&fm); res.OK() {
+				c.Violate("C10.setup", nil, "a pool creation with unpayable initial liquidity succeeded")
+				return
+			}
+			c.Count("failed_pool_creations", 1)
+		}
 		base := amt(9, 13)
 		sm := stableswap.NewMsgCreateStableswapPool(lp.Addr, stableswap.PoolParams{SwapFee: osmomath.MustNewDecFromStr("0.001"), ExitFee: osmomath.ZeroDec()}, sdk.NewCoins(sdk.NewCoin("aaa", base), sdk.NewCoin("ccc", base.MulRaw(1+r.I64n(3)))), []uint64{1, 1}, "")
 		if res := ch.Exec(&sm); !res.OK() {
@@ -192,6 +204,7 @@ func runC10(c *vk.Ctx) {
 		}
 		nBlocks := c.N(40, 120) + r.Intn(20)
 		var pruneMarks []time.Time
+		var retainFloor time.Time
 		type savedQ struct {
 			pair     *c10Pair
 			geo      bool
@@ -269,6 +282,19 @@ func runC10(c *vk.Ctx) {
 			observe(t)
 			if ch.App.EpochsKeeper.GetEpochInfo(ch.Ctx, "day").CurrentEpoch != dayBefore {
 				pruneMarks = append(pruneMarks, t)
+				if f := t.Add(-keep); f.After(retainFloor) {
+					retainFloor = f // everything from here on is inside the retention window of every pruning pass so far
+				}
+			}
+			if i%3 == 0 && b == nBlocks/3 {
+				// governance raises the retention period while the chain runs, the way a parameter-change proposal does:
+				// straight into the module's parameter subspace
+				if ss, ok := ch.App.ParamsKeeper.GetSubspace(twaptypes.ModuleName); ok {
+					keep = keep * 2
+					ss.Set(ch.Ctx, twaptypes.KeyRecordHistoryKeepPeriod, keep)
+					c.Logf("governance: record history keep period raised to %s (parameter subspace)", keep)
+					c.Count("keep_period_raised_mid_history", 1)
+				}
 			}
 			// a batch of queries kept for the pruning clause: issued now, re-issued at the end
 			if b%7 == 3 && len(saved) < 400 {
@@ -298,7 +324,7 @@ func runC10(c *vk.Ctx) {
 			if lastPrune.IsZero() || !sq.issuedAt.Before(lastPrune) {
 				continue
 			}
-			if sq.t0.Before(lastPrune.Add(-keep)) {
+			if sq.t0.Before(retainFloor) {
 				continue // older than the retention window: may legitimately be gone
 			}
 			c.Eval(1)
@@ -318,8 +344,8 @@ func runC10(c *vk.Ctx) {
 			}
 			// inside the retention window of the last pruning pass (older records may be gone)
 			floor := p.obs[0].t
-			if !lastPrune.IsZero() && lastPrune.Add(-keep).After(floor) {
-				floor = lastPrune.Add(-keep)
+			if !lastPrune.IsZero() && retainFloor.After(floor) {
+				floor = retainFloor
 			}
 			var cand []time.Time
 			for _, o := range p.obs {
